@@ -10,11 +10,17 @@ import (
 // who identifies the origin of a value: 0 = the runtime (original container / requested
 // resources), p+1 = pool plugin p. Every value embeds its origin so provenance is visible.
 func whoName(w int) string {
-	if w == 0 {
+	if w <= 0 { // wZero / wRtTweak only reach here for families that have no such variant
 		return "rt"
 	}
 	return fmt.Sprintf("p%d", w-1)
 }
+
+// special origins (see Op.ValOf)
+const (
+	wZero    = -1 // the zero / empty value, where writing it is a legal *set*
+	wRtTweak = -2 // the runtime's value with a small same-shape difference (mounts, devices)
+)
 
 func indexOf(list []string, k string) int {
 	for i, s := range list {
@@ -28,6 +34,10 @@ func indexOf(list []string, k string) int {
 // valW resolves whose value an op / update writes (see Op.ValOf).
 func valW(valOf string, own int) int {
 	switch {
+	case valOf == "zero":
+		return wZero
+	case valOf == "rt~":
+		return wRtTweak
 	case valOf == "rt":
 		return 0
 	case len(valOf) == 2 && valOf[0] == 'p' && valOf[1] >= '0' && valOf[1] <= '9':
@@ -36,17 +46,75 @@ func valW(valOf string, own int) int {
 	return own
 }
 
-func strVal(w int, fam, key string) string { return whoName(w) + ":" + fam + ":" + key }
+func strVal(w int, fam, key string) string {
+	if w == wZero {
+		return "" // an empty annotation / env / unified value is a value
+	}
+	return whoName(w) + ":" + fam + ":" + key
+}
 
-func numVal(w int, field string) int64 { return int64(w*1000 + indexOf(allResFields(), field) + 1) }
+func numVal(w int, field string) int64 {
+	if w == wZero {
+		return 0
+	}
+	if w < 0 {
+		w = 0
+	}
+	return int64(w*1000 + indexOf(allResFields(), field) + 1)
+}
 
 func mkMount(w int, key string) *api.Mount {
+	if w == wRtTweak {
+		// the runtime's mount with one option changed: same destination, type, source and
+		// number of options
+		return &api.Mount{Destination: key, Type: "bind", Source: "/src/rt", Options: []string{"rw", "x-rt"}}
+	}
 	return &api.Mount{Destination: key, Type: "bind", Source: "/src/" + whoName(w), Options: []string{"ro", "x-" + whoName(w)}}
 }
 
 func mkDevice(w int, key string) *api.LinuxDevice {
+	if w == wRtTweak {
+		d := mkDevice(0, key)
+		d.FileMode = &api.OptionalFileMode{Value: 0o666}
+		return d
+	}
+	if w < 0 {
+		w = 0
+	}
 	return &api.LinuxDevice{Path: key, Type: "c", Major: int64(w + 1), Minor: int64(indexOf(devKeys, key)),
 		FileMode: &api.OptionalFileMode{Value: uint32(0o600 + w)}, Uid: &api.OptionalUInt32{Value: uint32(w)}}
+}
+
+// famW restricts the special origins to the families where they make sense: writing the zero
+// value must be a legal set (not "unset"), a tweak exists only for mounts and devices.
+func famW(fam, valOf string, own int, adjust bool) int {
+	w := valW(valOf, own)
+	switch w {
+	case wZero:
+		switch fam {
+		case "ann", "env", "unified", "huge", "oom", "memReservation", "memSwap", "memKernel", "memKernelTcp", "memSwappiness",
+			"memDisableOom", "memUseHierarchy", "cpuShares", "cpuQuota", "cpuPeriod", "cpuRtRuntime", "cpuRtPeriod", "pids", "blockio", "rdt":
+			return wZero
+		case "memLimit":
+			if !adjust { // the OCI generator treats a zero limit in an adjustment as "not requested" (Pre)
+				return wZero
+			}
+		}
+		return own
+	case wRtTweak:
+		if fam == "mount" || fam == "dev" {
+			return wRtTweak
+		}
+		return 0
+	}
+	return w
+}
+
+func fieldFam(field string) string {
+	if i := strings.IndexByte(field, '/'); i > 0 {
+		return field[:i]
+	}
+	return field
 }
 
 func mkHook(w int, list string) *api.Hook {
@@ -112,9 +180,9 @@ func setResField(r *api.LinuxResources, field string, w int) {
 	case field == "memSwappiness":
 		mem().Swappiness = &api.OptionalUInt64{Value: uint64(v)}
 	case field == "memDisableOom":
-		mem().DisableOomKiller = &api.OptionalBool{Value: w%2 == 1}
+		mem().DisableOomKiller = &api.OptionalBool{Value: w > 0 && w%2 == 1}
 	case field == "memUseHierarchy":
-		mem().UseHierarchy = &api.OptionalBool{Value: w%2 == 0}
+		mem().UseHierarchy = &api.OptionalBool{Value: w >= 0 && w%2 == 0}
 	case field == "cpuShares":
 		cpu().Shares = &api.OptionalUInt64{Value: uint64(v)}
 	case field == "cpuQuota":
@@ -126,15 +194,29 @@ func setResField(r *api.LinuxResources, field string, w int) {
 	case field == "cpuRtPeriod":
 		cpu().RealtimePeriod = &api.OptionalUInt64{Value: uint64(v)}
 	case field == "cpus":
+		if w < 0 {
+			w = 0
+		}
 		cpu().Cpus = fmt.Sprintf("%d-%d", w, w+8)
 	case field == "mems":
+		if w < 0 {
+			w = 0
+		}
 		cpu().Mems = fmt.Sprintf("%d", w)
 	case field == "pids":
 		r.Pids = &api.LinuxPids{Limit: v}
 	case field == "blockio":
-		r.BlockioClass = &api.OptionalString{Value: "bio-" + whoName(w)}
+		if w == wZero {
+			r.BlockioClass = &api.OptionalString{} // present but empty: "clear the class"
+		} else {
+			r.BlockioClass = &api.OptionalString{Value: "bio-" + whoName(w)}
+		}
 	case field == "rdt":
-		r.RdtClass = &api.OptionalString{Value: "rdt-" + whoName(w)}
+		if w == wZero {
+			r.RdtClass = &api.OptionalString{}
+		} else {
+			r.RdtClass = &api.OptionalString{Value: "rdt-" + whoName(w)}
+		}
 	default:
 		panic("unknown resource field " + field)
 	}
@@ -330,7 +412,7 @@ func renderAdjust(s Script) *api.ContainerAdjustment {
 			if op.Act == "del" {
 				continue
 			}
-			w := valW(op.ValOf, w)
+			w := famW(op.Fam, op.ValOf, w, true)
 			switch op.Fam {
 			case "ann":
 				a.AddAnnotation(op.Key, strVal(w, "ann", op.Key))
@@ -363,7 +445,7 @@ func renderAdjust(s Script) *api.ContainerAdjustment {
 			case "cgroups":
 				a.SetLinuxCgroupsPath("/cg/" + whoName(w))
 			case "oom":
-				v := 100 + w
+				v := oomVal(w)
 				a.SetLinuxOomScoreAdj(&v)
 			default:
 				setAdjRes(a, op.Fam, w)
@@ -371,6 +453,16 @@ func renderAdjust(s Script) *api.ContainerAdjustment {
 		}
 	}
 	return a
+}
+
+func oomVal(w int) int {
+	if w == wZero {
+		return 0
+	}
+	if w < 0 {
+		w = 0
+	}
+	return 100 + w
 }
 
 func setAdjRes(a *api.ContainerAdjustment, field string, w int) {
@@ -416,7 +508,7 @@ func renderUpdates(s Script, id ids) []*api.ContainerUpdate {
 		if !u.NoRes {
 			cu.Linux = &api.LinuxContainerUpdate{Resources: &api.LinuxResources{}}
 			for _, f := range u.Fields {
-				setResField(cu.Linux.Resources, f, valW(u.ValOf, w))
+				setResField(cu.Linux.Resources, f, famW(fieldFam(f), u.ValOf, w, false))
 			}
 		}
 		out = append(out, cu)
